@@ -13,6 +13,7 @@ from checks import hedge_common
 def check(ctx: Ctx) -> None:
     hedge_common.replay_hedger(ctx, focus="C02")
     hedge_common.opaque_pairs(ctx)
+    hedge_common.features_on_every_derivative(ctx)
     hedge_common.c02_selftest(ctx)
     ctx.rule = ("all pairs of paths agreeing up to a cut and differing afterwards (bounded lattices) x configurations, "
                 "emitted by TLC; distinct = distinct emitted pair/record; opaque models on the same pairs")
